@@ -13,8 +13,8 @@ python3-vt - <<'PY'
 import json,jsonschema,glob
 sch=json.load(open('/root/.vp/EVIDENCE.schema.json'))
 bad=0
-for f in sorted(glob.glob('/verif/evidence/C*.json')):
+for f in sorted(glob.glob('evidence/C*.json')):
     try: jsonschema.validate(json.load(open(f)),sch)
     except Exception as e: bad+=1; print('INVALID',f,str(e)[:200])
-print('evidence files valid:', len(glob.glob('/verif/evidence/C*.json'))-bad)
+print('evidence files valid:', len(glob.glob('evidence/C*.json'))-bad)
 PY
